@@ -3,7 +3,7 @@ against panqec/codes/surface_3d/_rhombic_toric_code.py."""
 from harness.lat_rhombic import class_streams
 
 CLASS = 'RhombicToricCode'
-LEAN_MODULES = []  # Properties.C01RhombicToricCode: added with the theorems
+LEAN_MODULES = ['PanqecVerif.Properties.C01RhombicToricCode']
 
 # outside the supported family (all L_i even >= 2) the transcription is compared as well: odd sides
 # (inconsistent colouring across the boundary) and sides of length 1 (dict overwrite)
